@@ -176,6 +176,40 @@ func runSLCase(p *sut.Proc, sc slCase, serverPub []byte) (out slOutcome) {
 			if err := c.Send(bad); err != nil {
 				panic(err)
 			}
+		case sc.Behave == "switch-mid" && n == 2 && !restarted:
+			// the client joins another session while a ping is pending: the
+			// measurement belonged to the participant it was; the late answer is
+			// refused, nothing more is measured or reported for it, and a new
+			// measurement in the new session is bound to that session
+			restarted = true
+			oldUUID := c.UUID
+			jr, _, err := c.Join("")
+			if err != nil || jr == nil {
+				panic(fmt.Sprint("switch-mid: the session switch failed: ", err))
+			}
+			answer(id)
+			win, err := c.Barrier()
+			if err != nil {
+				panic(err)
+			}
+			errs := 0
+			for _, e := range append(append([]*d.Event(nil), c.Extra...), win...) {
+				if er, ok := e.M.(*hagallpb.ErrorResponse); ok && er.RequestId == id {
+					errs++
+				}
+				if e.Type == d.TPingReq || e.Type == d.TSignedLatResp {
+					out.findings = append(out.findings, c18f("switch/measurement-survives-session-switch", trig, "%s: the client switched from session %s to %s with ping %d pending and answered it afterwards: the server went on with the old participant's measurement (%s)", sc, oldUUID, c.UUID, id, e))
+					return
+				}
+			}
+			if errs != 1 {
+				out.findings = append(out.findings, c18f("switch/late-answer-not-refused", trig, "%s: the answer to ping %d, issued to the participant the client was before it switched session, got %d error answers (want 1); window %v", sc, id, errs, win))
+				return
+			}
+			reqID = c.NextReqID()
+			send()
+			issued = nil
+			continue
 		case sc.Behave == "restart" && n == 2 && !restarted:
 			// a new measurement supersedes the one in progress
 			restarted = true
@@ -452,7 +486,8 @@ func partSignedLatency(c *check.Ctx, a *acc) {
 				slCase{N: n, Wallet: "0xW", Behave: "unknown"},
 				slCase{N: n, Wallet: "0xW", Behave: "replay-after"},
 				slCase{N: n, Wallet: "0xW", Behave: "restart"},
-				slCase{N: n, Wallet: "0xW", Behave: "invalid-mid", DupRound: i})
+				slCase{N: n, Wallet: "0xW", Behave: "invalid-mid", DupRound: i},
+				slCase{N: n, Wallet: "0xW", Behave: "switch-mid"})
 		}
 	}
 	for i := 0; i < c.Pick(2, 6); i++ {
@@ -515,7 +550,7 @@ func partSignedLatency(c *check.Ctx, a *acc) {
 	c.Coverage["signed_latency_cases"] = done
 	c.Coverage["measurements_completed_and_fully_checked"] = completed
 	c.Coverage["requests_refused_and_checked"] = refused
-	a.add(done, completed+refused, "C18 scripts: iteration counts 0..60 and extremes, wallet strings, and misbehaving clients (answer an id twice, unknown id, replay after completion, restart, delayed first / final round, a slow round before a fast final one incl. one that straddles the wrap of the server's 32-bit nanosecond ping ids) against the real handler; signature recovered independently (x/crypto Keccak-256 + pure-Go decred secp256k1) against the server wallet key; a case is non-trivial when a measurement completed and all data clauses were checked or the request was refused and the refusal checked", samples...)
+	a.add(done, completed+refused, "C18 scripts: iteration counts 0..60 and extremes, wallet strings, and misbehaving clients (answer an id twice, unknown id, replay after completion, restart, a session switch with a ping pending, delayed first / final round, a slow round before a fast final one incl. one that straddles the wrap of the server's 32-bit nanosecond ping ids) against the real handler; signature recovered independently (x/crypto Keccak-256 + pure-Go decred secp256k1) against the server wallet key; a case is non-trivial when a measurement completed and all data clauses were checked or the request was refused and the refusal checked", samples...)
 }
 
 func init() {
